@@ -24,6 +24,8 @@ buffer).
 Round 7: (v) a handler around a child parse that goes on without re-raising, for an exception class
 some reader raises; a strategy installed only for the end-of-string marker may read len(raw).
 Round 8: (the strict-decode rule per strategy is shared with C03 and C14).
+Round 9 (supplement): the unpack drivers bind the reported name before they decode (C12's cursor
+discipline): a cut input fails as a PacketError, not as a NameError of the handler.
 """
 import ast
 
@@ -289,6 +291,16 @@ def check_strategy_strict(ctx, ci, fi, s, parked, rule='R4-strict-decode'):
 
 def check(ctx):
     repo = ctx.repo
+    # Round 9 (supplement).  "raises PacketError": the handler of a generated unpack driver builds
+    # the PacketError from the variable ``name`` -- a struct block that decodes before that variable
+    # is bound turns the failure of a cut input into a NameError (C12's cursor discipline)
+    from .. import drivers as D_
+    try:
+        for d_ in D_.get_drivers(repo):
+            if d_.kind == 'unpack':
+                D_.check_cursor_discipline(ctx, 'R4-failure-is-located', d_, repo)
+    except Undecided as e:
+        ctx.undecided('R4-failure-is-located', ('bisturi/codegen.py', 'CodeGenerator'), 'unpack drivers', str(e), 0)
     # Round 6: the file-backed stand-in for bytes returns what the file returned, so that a short
     # read stays visible as a short slice (C14-g)
     from .c14 import check_file_backed_raw
